@@ -199,3 +199,19 @@ PROPS["C17"] = dict(
           "upload latency {0, 250 ms, 5 s}, optionally a write performed by the S3 endpoint while an upload is in flight, cancellation 0.5 s .. 10 min after the last write; observed: "
           "every upload (virtual time, body hash, db.Open of the body), every file version that existed, exit time; a case is (#writes, #uploads, #failures, race?, latency)"),
 )
+
+
+def fields_shards(tier, seed, search=False):
+    k, n = (4, 1500) if tier == "quick" else (16, 20000)
+    return [Shard("fields", ["-seed", str(s), "-n", str(n)], driver="fields") for s in seeds(seed, k)]
+
+
+PROPS["C20"] = dict(
+    shards=fields_shards,
+    trusted=BASE_TRUST + ["package reflect, path.Join on clean slash-separated names, encoding/json's verdict on whether bytes decode into a json-tagged field (an oracle read from the joined error)"],
+    assumptions=["prefixes and tag names are clean slash-separated paths (no empty, '.' or '..' segments)", "tagged fields are exported; the argument is non-nil"],
+    rule=("struct types built at run time with reflect.StructOf from a menu {[]byte, string, setec.Secret, value and pointer BinaryUnmarshaler, JSON struct, int, map, chan} in random order and "
+          "number, tags {name, name+json, name+other verb, empty name, none}, optionally an embedded struct with a tagged field, prefixes {none, dev, prod/app}, secret values {plain, "
+          "rejected by the unmarshaler, JSON object, JSON number, absent}; through NewStore{Structs} and through ParseFields+Apply on a lookup-enabled store; non-pointer and non-struct "
+          "arguments; after population every []byte field is overwritten and the store is read again; a case is (path, parse outcome, #fields, apply error?, store available?)"),
+)
